@@ -74,6 +74,12 @@ add("C17", "jaxpr2smt",
     "floats as reals (the property allows rounding); log(exp x)=x axiom where named; tree shapes enumerated",
     "DESIGN.md §6 C17")
 
+add("C15", "jaxpr2smt",
+    "bounded symbolic execution of the jaxprs of StaticDist.sample/reset/quantile and TrainableDist.sample/mean/quantile over z3 terms with the wrapped distribution as an oracle and PRNG split as an uninterpreted function; z3 decides non-negativity, rng threading, replay and the Deterministic/Normal/Trainable quantile laws",
+    "RESTRICTED CLAIM: every StaticDist sample is >= 0 for arbitrary underlying samples, the returned distribution carries split(rng)[0] and samples depend on split(rng)[1] only, reset replays; TrainableDist sample=mean=quantile in [min,max]; Deterministic quantile = value; Normal quantile = loc+scale*ndtri(q), monotone given ndtri increasing. NOT claimed: mixture quantiles, agreement of quantiles with the CDF, the GMM delay estimator (not encodable).",
+    "underlying distribution = arbitrary function of its seed; ndtri uninterpreted (strictly increasing axiom); sample shapes 1 and 3",
+    "DESIGN.md §6 C15")
+
 def main():
     checks = []
     for pid in sorted(CHECKS):
